@@ -193,7 +193,11 @@ def emit(run, known, out, evidence_path=None, selftest=None, quiet=False):
         if not quiet:
             out('RULE %s-%s %s instances=%d ok=%d viol=%d  %s'
                 % (run.prop, c.cid, c.rule, len(c.obs), len(c.obs) - nv, nv, c.desc))
+    printed = set()
     for o in known_hits:
+        if o.known.get('id') in printed:
+            continue
+        printed.add(o.known.get('id'))
         out('KNOWN-FINDING: property=%s %s [%s-%s %s at %s]'
             % (o.prop, o.known.get('what_fails', o.what), o.prop, o.clause, o.unit, o.loc))
     for o in viol_new:
